@@ -49,6 +49,7 @@ Outcome feed_message(Parser& parser, const std::string& msg, const std::vector<s
     for (size_t i = 0; i < ends.size(); ++i) {
         size_t end = ends[i];
         if (end <= start) continue;
+        sim::heartbeat(); // the harness is alive; a feed()/parse() that never returns still ends in verdict hang
         try {
             if (!parser.feed(msg.data() + start, end - start)) {
                 parser.reset();
